@@ -139,6 +139,8 @@ func runC05(c *Ctx) {
 		R.Ob(c.siteKey(cp, "LineLimit=0 before chunk copy"), c.P.InstrPos(cp), seen["st:lineLimitReader.LineLimit=0"], "payload is copied with the command line limit still armed")
 	}
 
+	ruleLimiterBypass(c)
+
 	R.Rule("R-bdat-one-call", "E3", "the pipe and the delivery goroutine are created only when no transfer is open; the pipe field is only cleared after the pipe was closed", 3)
 	for _, site := range c.Sites(lPipe) {
 		c.obUnreach("io.Pipe", site, aPipeOpen)
